@@ -651,4 +651,174 @@ theorem checkSession_all (buf : Bytes) (limit : Nat) (mode : CMode) (s : State) 
   unfold Message.checkSession
   simp only [contains_panic_false ops _ hnp, Bool.false_eq_true, if_false, hd, hwalk]
 
+/-! ### a TSIG configuration keeps its algorithm -/
+
+/-- `s'` still has a TSIG configuration of the same kind: signed with a MAC of the same size, or
+    unsigned -/
+def SigKept (s s' : State) : Prop :=
+  ∀ ts, s.tsig = some ts → ∃ ts', s'.tsig = some ts' ∧ (toATsig ts').signed = (toATsig ts).signed
+
+theorem sigKept_of_eq {s s' : State} (h : s'.tsig = s.tsig) : SigKept s s' :=
+  fun ts hts => ⟨ts, by rw [h, hts], rfl⟩
+
+theorem setCount_tsig (sec : RrSection) (n : Nat) (s : State) : (setCount sec n s).2.tsig = s.tsig := by
+  cases sec <;> rfl
+
+theorem rolled_tsig {f : M Unit} (h : Rolled f) (s : State) : (f s).2.tsig = s.tsig := by
+  have := h s
+  cases hf : f s with
+  | mk r s' =>
+    rw [hf] at this
+    cases r with
+    | ok u =>
+      obtain ⟨s1, sec, n, e, _, hs'⟩ := this
+      show s'.tsig = _
+      rw [hs', setCount_tsig, e.tsig]
+    | err e => exact this.tsig
+    | panic => exact this.tsig
+
+theorem retemplate_sig (ss : Session) (n : Nat) (fill : UInt8) (mk : Bytes → Template → Out WriterErr State)
+    (hI : I ss.w) (hmk : ∀ buf t s', intoTemplate ss.w = .ok t → mk buf t = .ok s' → SigKept ss.w s') :
+    SigKept ss.w (retemplate ss n fill mk).2.w := by
+  obtain ⟨t, ht⟩ := intoTemplate_ok hI.inv
+  obtain ⟨sf, hsf⟩ := tryFromTemplate_fallback_ok fill hI.inv ht
+  have hsfk : SigKept ss.w sf := by
+    apply sigKept_of_eq
+    unfold tryFromTemplate at hsf
+    rw [tryFromTemplateImpl_tsig _ _ hsf, intoTemplate_tsig ht]
+  unfold retemplate
+  rw [ht]
+  simp only []
+  cases hm : mk (Array.replicate n fill) t with
+  | ok s' => simp only []; exact hmk _ _ _ ht hm
+  | err e => simp only []; rw [hsf]; exact hsfk
+  | panic => simp only []; rw [hsf]; exact hsfk
+
+theorem step_sig (ss : Session) (op : Op) (hI : I ss.w) : SigKept ss.w (step ss op).2.w := by
+  have lw : ∀ f : M Unit, (f ss.w).2.tsig = ss.w.tsig → SigKept ss.w (liftW ss f).2.w := fun f h => by
+    rw [liftW_w]; exact sigKept_of_eq h
+  cases op with
+  | setId v => exact lw (setId v) (keepN_write _ _ _).tsig
+  | setQr b => exact lw (setQr b) (keepN_setHdr _ _ _).tsig
+  | setAa b => exact lw (setAa b) (keepN_setHdr _ _ _).tsig
+  | setTc b => exact lw (setTc b) (keepN_setHdr _ _ _).tsig
+  | setRd b => exact lw (setRd b) (keepN_setHdr _ _ _).tsig
+  | setRa b => exact lw (setRa b) (keepN_setHdr _ _ _).tsig
+  | setOpcode v => exact lw (setOpcode v) (keepN_setHdr _ _ _).tsig
+  | setRcode v => exact lw (setRcode v) (keepN_setRcode _ _).tsig
+  | setExtendedRcode v => exact lw (setExtendedRcode v) (keepN_setExtendedRcode _ _).tsig
+  | setLimit v => exact lw (setLimit v) (setLimit_cfg _ _).2
+  | setMode m => exact lw (setCompressionMode m) rfl
+  | addQuestion n t c =>
+    refine lw (addQuestion n t c) ?_
+    have := addQuestion_cases n t c ss.w
+    cases hf : addQuestion n t c ss.w with
+    | mk r s' =>
+      rw [hf] at this
+      cases r with
+      | ok u => obtain ⟨s1, e, _, hs'⟩ := this; show s'.tsig = _; rw [hs']; exact e.tsig
+      | err e => exact this.tsig
+      | panic => exact this.tsig
+  | addRr sec hn o ty cls ttl rd hv =>
+    apply sigKept_of_eq
+    show (withHv ss hv _).2.w.tsig = _
+    rw [withHv_w]
+    exact rolled_tsig (rolled_addRrOp sec _ o ty cls ttl rd) _
+  | addRrset sec hn o ty cls ttl rds hv =>
+    apply sigKept_of_eq
+    show (withHv ss hv _).2.w.tsig = _
+    rw [withHv_w]
+    exact rolled_tsig (rolled_addRrsetOp sec _ o ty cls ttl rds) _
+  | clearRrs => exact lw clearRrs rfl
+  | setEdns p =>
+    refine lw (setEdns p) ?_
+    unfold setEdns
+    repeat' split
+    all_goals rfl
+  | setTsig m rr =>
+    intro ts hts
+    refine ⟨ts, ?_, rfl⟩
+    show (liftW ss (setTsig m rr)).2.w.tsig = _
+    rw [liftW_w]
+    unfold setTsig
+    rw [if_pos (by rw [hts]; rfl)]
+    exact hts
+  | updateTimeSigned t =>
+    intro ts hts
+    refine ⟨{ ts with rr := { ts.rr with timeSigned := t } }, ?_, rfl⟩
+    show (liftW ss (updateTimeSigned t)).2.w.tsig = _
+    rw [liftW_w]
+    unfold updateTimeSigned
+    rw [hts]
+  | template n fill =>
+    refine retemplate_sig ss n fill _ hI (fun buf t s' ht hm => ?_)
+    apply sigKept_of_eq
+    unfold tryFromTemplate at hm
+    rw [tryFromTemplateImpl_tsig _ _ hm, intoTemplate_tsig ht]
+  | templateSubsequent n fill mac =>
+    refine retemplate_sig ss n fill _ hI (fun buf t s' ht hm => ?_)
+    intro ts0 hts0
+    have hts := intoTemplate_tsig ht
+    simp only [tryFromTemplateAsTsigSubsequent] at hm
+    rw [hts, hts0] at hm
+    simp only at hm
+    cases hmode : ts0.mode with
+    | request al k =>
+      rw [hmode] at hm
+      exact ⟨_, tryFromTemplateImpl_tsig _ _ hm, by simp only [toATsig, hmode]⟩
+    | response al x k =>
+      rw [hmode] at hm
+      exact ⟨_, tryFromTemplateImpl_tsig _ _ hm, by simp only [toATsig, hmode]⟩
+    | subsequent al x k =>
+      rw [hmode] at hm
+      exact ⟨_, tryFromTemplateImpl_tsig _ _ hm, by simp only [toATsig, hmode]⟩
+    | unsigned nm => rw [hmode] at hm; cases hm
+  | getters => exact sigKept_of_eq rfl
+
+theorem SigKept.trans {a b c : State} (h1 : SigKept a b) (h2 : SigKept b c) : SigKept a c := by
+  intro ts hts
+  obtain ⟨ts1, e1, s1⟩ := h1 ts hts
+  obtain ⟨ts2, e2, s2⟩ := h2 ts1 e1
+  exact ⟨ts2, e2, by rw [s2, s1]⟩
+
+theorem after_sig (ss : Session) (ops : List Op) (hI : I ss.w) (hr : Respects ss ops) :
+    SigKept ss.w (after ss ops).w := by
+  induction ops generalizing ss with
+  | nil => exact sigKept_of_eq rfl
+  | cons op ops ih =>
+    obtain ⟨hop, hrest⟩ := hr
+    exact SigKept.trans (step_sig ss op hI) (ih _ (step_I ss op hI hop).2 hrest)
+
+theorem unsigned_iff (ts : Tsig) : isUnsigned ts.mode = (toATsig ts).signed.isNone := by
+  cases hm : ts.mode <;> simp [toATsig, hm, isUnsigned]
+
+/-- **`C12_full`**, as (amended) stated: the MAC-size hypothesis for the final state alone suffices,
+    because a TSIG configuration keeps its algorithm for the rest of the session -/
+theorem checkSession_full (buf : Bytes) (limit : Nat) (mode : CMode) (s : State) (ops : List Op)
+    (mac : Option (List UInt8)) (hnew : Writer.new buf limit = .ok s)
+    (hr : Respects { w := { s with mode := mode } } ops) (ht : ∀ op ∈ ops, ApiTyped op) (hlim : limit ≤ 65535)
+    (hv : ∀ v, Op.setLimit v ∈ ops → v ≤ 65535) (hmac : MacLenOK (fun _ _ => mac.getD []))
+    (hsz : ∀ ts, (run { w := { s with mode := mode } } ops).1.w.tsig = some ts → isUnsigned ts.mode = false →
+      (mac.getD []).length = (toATsig ts).macLen) :
+    ∃ m, (Driver.runModel { w := { s with mode := mode } } ops mac true).msg = some m ∧
+      Message.checkSession buf.size limit (Driver.toSpecMode mode) (ops.map Driver.toSpecOp)
+        (Driver.runModel { w := { s with mode := mode } } ops mac true).statuses
+        ((Driver.runModel { w := { s with mode := mode } } ops mac true).pre ++ [m])
+        (Driver.runModel { w := { s with mode := mode } } ops mac true).mac = "ok" := by
+  refine checkSession_all buf limit mode s ops mac hnew hr ht hlim hv hmac (fun o1 o2 hsplit ts hts hu => ?_)
+  have hI0 : I ({ w := { s with mode := mode } } : Session).w := (safe_setMode mode s (new_i buf limit s hnew)).2
+  subst hsplit
+  obtain ⟨hr1, hr2⟩ := (respects_append _ o1 o2).mp hr
+  obtain ⟨hnp1, hI1⟩ := run_I _ o1 hI0 hr1
+  have hrun1 := after_eq_run _ o1 hnp1
+  have hrunA := after_eq_run _ (o1 ++ o2) (run_I _ (o1 ++ o2) hI0 hr).1
+  rw [hrun1] at hts hI1
+  obtain ⟨ts', hts', hsig⟩ := after_sig _ o2 hI1 hr2 ts hts
+  rw [← after_append, ← hrunA] at hts'
+  have hu' : isUnsigned ts'.mode = false := by rw [unsigned_iff, hsig, ← unsigned_iff]; exact hu
+  have := hsz ts' hts' hu'
+  rw [this]
+  unfold Message.ATsig.macLen
+  rw [hsig]
+
 end QV.Writer
